@@ -2409,7 +2409,7 @@ def run(ctx):
     ctx.log("z3 stage: %d goals, %d accepted" % (len(goals), n))
     gd = G(ctx.rng("z3-directed"))
     dgoals = []
-    for _ in range(ctx.scale(220, 1500)):
+    for _ in range(ctx.scale(220, 700)):
         x = gd.directed()
         try:
             H.term(x).checked_get_type()
